@@ -298,8 +298,26 @@ def _as_obs(co):
     return Observation(s.grid, s.agent)
 
 
+def exercise_space(sp, is_state):
+    """use the read-only interface of a space: every public property, and the representations built on it (they query the space)"""
+    for name in dir(type(sp)):
+        if not name.startswith('_') and isinstance(getattr(type(sp), name, None), property):
+            try:
+                getattr(sp, name)
+            except Exception:  # noqa: BLE001
+                pass
+    from gym_gridverse.representations.observation_representations import make_observation_representation
+    from gym_gridverse.representations.state_representations import make_state_representation
+    for kind in ('default', 'no-overlap', 'compact'):
+        try:
+            (make_state_representation if is_state else make_observation_representation)(kind, sp)
+        except Exception:  # noqa: BLE001
+            pass
+
+
 def membership(ctx):
-    """the predicates themselves: conforming inputs and near misses, real contains vs model contains"""
+    """the predicates themselves: conforming inputs and near misses, real contains vs model contains; the verdict does not depend on
+    whether the space's read-only interface (properties, representations built on it) has been used in between"""
     r = ctx.rng
     n = 300 if ctx.tier == 'quick' else 3000
     reqs, metas = [], []
@@ -315,9 +333,20 @@ def membership(ctx):
             h += r.choice([-1, 1])
         elif k < 0.3:
             p = (p[0] + r.choice([-h, h, 0]), p[1] + r.choice([-w, w, 0]))
+        if 0.3 <= k < 0.42:
+            # a cell holding the "no object" placeholder / a Hidden cell: only allowed where the space declares that type
+            gh, gw = gen.shape_of(g)
+            g = gen.set_cell(g, (r.randrange(gh), r.randrange(gw)), r.choice([gen.NONE, gen.HIDDEN]))
         cs = (g, p, o, held)
         sp = StateSpace(Shape(max(h, 1), w), [grid_object_registry[t] for t in types], [Color(c) for c in colors])
         got = bool(sp.contains(wire.mkstate(cs)))
+        if r.random() < 0.5:
+            exercise_space(sp, True)
+            again = bool(sp.contains(wire.mkstate(cs)))
+            if again != got:
+                ctx.violation(f'StateSpace.contains says {got}, and {again} after the read-only interface of the space was used',
+                              {'state': gen.show_state(cs), 'types': types, 'colors': colors, 'wire_state': cs})
+            got = again
         ctx.count('state membership', got)
         ctx.case(('ss', tuple(types), cs, h), True, None)
         reqs.append([11, 0, max(h, 1), w, *lst(types), *lst(colors), *wire.estate(cs)])
@@ -328,6 +357,13 @@ def membership(ctx):
             g2 = tuple(tuple(gen.HIDDEN if r.random() < 0.3 else c for c in row) for row in g)
             co = (g2, p, 0, held)
             got = bool(osp.contains(_as_obs(co)))
+            if r.random() < 0.5:
+                exercise_space(osp, False)
+                again = bool(osp.contains(_as_obs(co)))
+                if again != got:
+                    ctx.violation(f'ObservationSpace.contains says {got}, and {again} after the read-only interface of the space was used',
+                                  {'observation': gen.show_state(co), 'types': types, 'colors': colors})
+                got = again
             ctx.count('observation membership', got)
             ctx.case(('os', tuple(types), tuple(colors), co, h), True, None)
             reqs.append([11, 1, max(h, 1), w, *lst(types), *lst(colors), *wire.estate(co)])
